@@ -137,6 +137,32 @@ def check_case(item):
         for p in ps:
             pats.append((i, U.m_core(p), ((prios[i] or 0) if (greedy and prios) else 0)))
     w = None
+    if greedy:
+        # a tie matters only among the clauses of the HIGHEST priority that match the same text: explore all patterns jointly
+        dfs = [D.Dfa(r, reps) for _, r, _ in pats]
+        start = tuple(r for _, r, _ in pats)
+        seenq = {start}
+        frq = [(start, b"")]
+        while frq and w is None:
+            Q, path = frq.pop()
+            if path:
+                nul = [k for k, qk in enumerate(Q) if qk is not None and D.nullable(qk)]
+                if nul:
+                    top = max(pats[k][2] for k in nul)
+                    owners = sorted(set(pats[k][0] for k in nul if pats[k][2] == top))
+                    if len(owners) > 1:
+                        w = ("greedy clauses %s all match %r with the highest priority %d" % (owners, path, top), path)
+                        break
+            for c in reps:
+                nq = tuple((None if (qk is None or dfs[k].dead(D.deriv(qk, c))) else D.deriv(qk, c)) for k, qk in enumerate(Q))
+                if all(x is None for x in nq):
+                    continue
+                if nq not in seenq and len(seenq) < 4000:
+                    seenq.add(nq)
+                    frq.append((nq, path + bytes([c])))
+        res["truth"] = "ambiguous" if w else "unambiguous"
+        res["witness"] = repr(w)
+        return res
     for (i, ri, pi), (j, rj, pj) in itertools.permutations(pats, 2):
         if i == j:
             continue
